@@ -68,7 +68,18 @@ def main():
                     if isinstance(f, types.FunctionType):
                         code2fn[f.__code__] = (f'{mm.__name__}.{obj.__name__}.{k}', f)
     seen = defaultdict(lambda: defaultdict(set))      # fn -> param -> classes seen
+    nondefault = defaultdict(set)                     # fn -> params seen with a value other than the default
+    defaults = {}
     calls = defaultdict(int)
+
+    def _defaults(name, fn):
+        if name not in defaults:
+            try:
+                defaults[name] = {k: p_.default for k, p_ in inspect.signature(fn).parameters.items()
+                                  if p_.default is not inspect.Parameter.empty}
+            except Exception:
+                defaults[name] = {}
+        return defaults[name]
 
     def prof(frame, event, arg):
         if event != 'call':
@@ -84,7 +95,14 @@ def main():
             if p in ('self', 'cls'):
                 continue
             try:
-                seen[name][p].add(classify(frame.f_locals.get(p)))
+                v = frame.f_locals.get(p)
+                seen[name][p].add(classify(v))
+                dflt = _defaults(name, fn)
+                if p in dflt and p not in nondefault[name]:
+                    d = dflt[p]
+                    same = v is d or (type(v) is type(d) and isinstance(d, (int, float, str, bool, type(None))) and v == d)
+                    if not same:
+                        nondefault[name].add(p)
             except Exception:
                 pass
 
@@ -120,7 +138,7 @@ def main():
                 continue
             classes = seen[name].get(pn, set())
             if par.default is not inspect.Parameter.empty:
-                if classes <= {classify(par.default)}:
+                if pn not in nondefault[name]:
                     only_default.append(f'{name}({pn}={par.default!r})  calls={calls[name]}')
             if len(classes) == 1 and par.default is inspect.Parameter.empty:
                 only_default.append(f'{name}({pn}) always {sorted(classes)[0]}  calls={calls[name]}')
